@@ -642,6 +642,9 @@ type LifeGen struct {
 	// Rebirth permits CREATE2 at an address whose earlier child self-destructed
 	// (re-creation at the same address). Off by default.
 	Rebirth bool
+	// NoTokens switches the issued-token steps off (no issuer is deployed, no
+	// token is issued or sent by this generator).
+	NoTokens bool
 
 	variant  int
 	busy     map[common.Address]bool // contracts with a pending kill or spawn in this batch
@@ -957,6 +960,12 @@ func (lg *LifeGen) Next() *Item {
 		}
 		if len(live) > 0 {
 			wOps, wKill, wFund, wToken = 12, 3, 1, 1
+			if h, _, _ := lg.tokenHolder(); h != nil {
+				wToken = 4
+			}
+		}
+		if lg.NoTokens {
+			wToken = 0
 		}
 		switch t.Pick(wCreate, wFactory, wSpawn, wOps, wKill, wFund, wToken) {
 		case 0:
